@@ -1,12 +1,16 @@
 #!/bin/bash
-# tools/import_wave.sh <wave> <tag> : import (tools/try_seed.py) every property of the wave whose seeding agent has finished
-# (meta1..3.json present in /tmp/<wave>-cNN-out) and that is not imported yet; one line per change on stdout.
-wave=$1; tag=$2
+# tools/import_wave.sh <wave> <tag> [parallel] : import (tools/try_seed.py) every property of the wave whose seeding agent has
+# finished (meta1..3.json and demo3.py present in /tmp/<wave>-cNN-out) and that is not imported yet; one line per change.
+wave=$1; tag=$2; par=${3:-4}
 cd /verif
+todo=()
 for id in $(cat checks/READY); do
   l=$(echo $id | tr A-Z a-z)
   out=/tmp/$wave-$l-out
   [ -f $out/meta1.json ] && [ -f $out/meta2.json ] && [ -f $out/meta3.json ] && [ -f $out/demo3.py ] || continue
   [ -f seeded/$id-${tag}3/meta.json ] && continue
-  tools/try_seed.py $id $out $tag quick 2>&1 | grep -E "^C[0-9]+-${tag}[0-9] valid" | cut -c1-200
+  todo+=($id)
 done
+[ ${#todo[@]} -eq 0 ] && exit 0
+export wave tag
+printf '%s\n' "${todo[@]}" | xargs -r -P $par -I{} bash -c 'id={}; l=$(echo $id | tr A-Z a-z); tools/try_seed.py $id /tmp/$wave-$l-out $tag quick 2>&1 | grep -E "^C[0-9]+-$tag[0-9] valid" | cut -c1-200'
